@@ -2,7 +2,7 @@
 # usage: muteval.sh <mutation dir (seeded/<ID>)> <check id> [<check id>...]
 # Applies the mutation in a scratch worktree of /repo HEAD and runs the given checks with PYTHONPATH pointing at it.
 # Prints one RESULT line per check and appends it to <mutation dir>/results.txt when VERIF_MUT_RECORD=1.
-MDIR=$1; shift 1
+MDIR=$(cd "$1" && pwd); shift 1
 NAME=$(basename $MDIR)
 mkdir -p /tmp/mw
 WT=/tmp/mw/$NAME
